@@ -189,6 +189,8 @@ def run_case(ctx, case):
     c = de(case)
     if c["kind"] == "ctor":
         return run_ctor(ctx, case, c)
+    if c["kind"] == "floatmap":
+        return run_floatmap(ctx, case, c)
     U = c["U"]
     ops = [tuple(o) for o in c["ops"]]
     rec.case(case, nontrivial=nontrivial_kv(U))
@@ -254,6 +256,76 @@ def run_case(ctx, case):
                 bad = wf_problems(piece)
                 if bad:
                     rec.violation("split piece not well formed: " + bad[0], case, piece=ser(observe(piece)))
+
+
+def run_floatmap(ctx, case, c):
+    """affine maps of float vectors with arguments at the edge of the float range: rounding, underflow, overflow, NaN, inf and
+    complex numbers can merge or destroy knots; the result must be a well-formed vector or the request must be refused and
+    leave the object as it was"""
+    rec = ctx["rec"]
+    unq = lambda x: x[2:] if isinstance(x, str) and x.startswith("f:") else x     # noqa: E731  floats travel as "f:<repr>"
+    U = [float(unq(x)) for x in c["U"]]
+    name, arg = c["op"][0], unq(c["op"][1])
+    val = None if arg is None else (complex(arg) if "j" in arg else float(arg))
+    rec.case(case, nontrivial=True)
+    rec.count("floatmap", name + ":" + str(arg))
+    r = impl(lambda: KnotVector(list(U)))
+    if r[0] != "ok":
+        return          # the start vector itself is not in the set (e.g. values closer than the merge tolerance)
+    kv = r[1]
+    before = [repr(x) for x in kv], kv.degree, kv.npts
+    if name == "shift":
+        r = impl(lambda: kv.shift(val))
+    elif name == "scale":
+        r = impl(lambda: kv.scale(val))
+    elif name == "iadd":
+        def f():
+            nonlocal kv
+            kv += val
+        r = impl(f)
+    elif name == "imul":
+        def f():
+            nonlocal kv
+            kv *= val
+        r = impl(f)
+    else:
+        r = impl(lambda: kv.normalize())
+    rec.count("outcome", errkind(r))
+    l3(rec, "WF-after-float-map")
+    if r[0] != "ok":
+        after = [repr(x) for x in kv], kv.degree, kv.npts
+        if after != before:
+            rec.violation("rejected affine map modified the knot vector", case, before=before[0], after=after[0])
+        return
+    elems = list(kv)
+    if not all(isinstance(x, (int, float, F)) and x == x for x in elems):
+        rec.violation("affine map accepted and left NaN / non-real knots", case, state=[repr(x) for x in elems])
+        return
+    finite = all(abs(x) != float("inf") for x in elems)
+    if finite:
+        vals = sorted(set(frac(x) for x in elems))
+        if any(b - a < F(1, 10**6) for a, b in zip(vals[:-1], vals[1:])):
+            # distinct values closer than the library's merge tolerance (underflow): outside the guaranteed domain (see ASSUMPTIONS)
+            rec.count("floatmap-domain", "near-duplicate-values")
+            return
+    else:
+        rec.count("floatmap-domain", "infinite-values")
+    # the element list itself (plain comparisons, so that overflow to +-inf is judged like any other value)
+    p_, n_ = kv.degree, kv.npts
+    bad = []
+    if any(elems[i] > elems[i + 1] for i in range(len(elems) - 1)):
+        bad.append("not non-decreasing")
+    if elems.count(elems[0]) != p_ + 1 or elems.count(elems[-1]) != p_ + 1:
+        bad.append("end values not repeated exactly degree+1 times")
+    if any(elems.count(x) > p_ + 1 for x in set(elems)):
+        bad.append("interior multiplicity above degree+1")
+    if len(elems) != p_ + n_ + 1 or not n_ > p_:
+        bad.append("length / npts inconsistent")
+    if not bad and finite:
+        bad = wf_problems(kv)
+    if bad:
+        rec.violation("affine map accepted but the vector is no longer well formed: " + "; ".join(bad[:3]), case,
+                      state=[repr(x) for x in elems], degree=kv.degree, npts=kv.npts)
 
 
 def run_ctor(ctx, case, c):
@@ -357,6 +429,26 @@ def run(ctx):
         else:
             w.insert(0, w[0] - 1)
         run_case(ctx, ser(dict(kind="ctor", label="mutated-" + mode, v=w, deg=None)))
+    # affine maps of float vectors at the edge of the float range (corpus first, then random)
+    fm = [([0, 0, 0.5, 4, 4], ("shift", "1e16")), ([0, 0, 4, 4.5, 5, 12, 12], ("iadd", "1e16")), ([0, 0, 0.25, 1, 1], ("scale", "5e-324")),
+          ([-1e308, -1e308, 0, 1e308, 1e308], ("normalize", None)), ([0, 0, 0.5, 1, 1], ("shift", "nan")),
+          ([0, 0, 0.5, 1, 1], ("scale", "inf")), ([0, 0, 0.5, 1, 1], ("shift", "1j")), ([0, 0, 0.5, 1, 1], ("shift", "inf")),
+          ([1, 1, 2, 3, 3], ("imul", "1e308")), ([0, 0, 0, 1, 2, 3, 3, 3], ("scale", "1e-323"))]
+    for U, op in fm:
+        run_case(ctx, ser(dict(kind="floatmap", U=["f:" + repr(float(x)) for x in U], op=[op[0], None if op[1] is None else "f:" + op[1]])))
+    for i in range(budget(ctx, 40, 400)):
+        U = [float(x) for x in rand_kv(rng, pmax=3, nintmax=3)]
+        name = rng.choice(["shift", "iadd", "scale", "imul", "normalize"])
+        if name in ("shift", "iadd"):
+            arg = rng.choice(["1e15", "1e16", "-3e16", "1e17", "1e300", "-1e308", "nan", "inf", "-inf", "1j", "2.5", "1e-300"])
+        elif name in ("scale", "imul"):
+            arg = rng.choice(["5e-324", "1e-320", "1e-310", "1e-300", "1e300", "1e308", "1.7e308", "inf", "nan", "3.5"])
+        else:
+            arg = None
+            if rng.random() < 0.5:
+                m = rng.choice([1e300, 1e308, 1e-310, 1e-320])
+                U = [x * m for x in U]
+        run_case(ctx, ser(dict(kind="floatmap", U=["f:" + repr(x) for x in U], op=[name, None if arg is None else "f:" + arg])))
     maxlen = budget(ctx, 12, 40)
     for i in range(budget(ctx, 90, 1200)):
         U = rand_kv(rng, force_zero=(i % 7 == 0))
